@@ -16,6 +16,7 @@ limitations under the License.
 
 #include "libcellml/printer.h"
 
+#include <cctype>
 #include <list>
 #include <map>
 #include <regex>
@@ -179,11 +180,45 @@ std::string printConnections(const ComponentMap &componentMap, const VariableMap
     return connections;
 }
 
+/**
+ * @brief Remove the whitespace that follows a '>' and the whitespace that precedes a '<'.
+ *
+ * This is done with a loop rather than with regular expressions: std::regex_replace()
+ * recurses once per matched character and overflows the stack on a long run of blanks.
+ *
+ * @param text The serialised MathML.
+ *
+ * @return The text without the whitespace around the markup.
+ */
+std::string removeWhitespaceAroundMarkup(const std::string &text)
+{
+    std::string res;
+    res.reserve(text.size());
+    size_t i = 0;
+    const size_t n = text.size();
+    while (i < n) {
+        if (std::isspace(static_cast<unsigned char>(text[i])) != 0) {
+            size_t j = i;
+            while ((j < n) && (std::isspace(static_cast<unsigned char>(text[j])) != 0)) {
+                ++j;
+            }
+            bool afterMarkup = !res.empty() && (res.back() == '>');
+            bool beforeMarkup = (j < n) && (text[j] == '<');
+            if (!afterMarkup && !beforeMarkup) {
+                res.append(text, i, j - i);
+            }
+            i = j;
+        } else {
+            res += text[i];
+            ++i;
+        }
+    }
+    return res;
+}
+
 std::string Printer::PrinterImpl::printMath(const std::string &math)
 {
     static const std::string wrapElementName = "math_wrap_as_single_root_element";
-    static const std::regex before(">[\\s\n\t]*");
-    static const std::regex after("[\\s\n\t]*<");
     static const std::regex xmlDeclaration(R"|(<\?xml[[:space:]]+version=.*\?>)|");
 
     XmlDocPtr xmlDoc = std::make_shared<XmlDoc>();
@@ -200,8 +235,7 @@ std::string Printer::PrinterImpl::printMath(const std::string &math)
             childNode = childNode->next();
         }
         // Clean whitespace in the math.
-        result = std::regex_replace(result, before, ">");
-        return std::regex_replace(result, after, "<");
+        return removeWhitespaceAroundMarkup(result);
     } else {
         for (size_t i = 0; i < xmlDoc->xmlErrorCount(); ++i) {
             auto issue = Issue::IssueImpl::create();
